@@ -11,105 +11,18 @@ import (
 	"crypto/sha1"
 	"crypto/sha256"
 	"fmt"
-	"go/ast"
-	"go/parser"
-	"go/token"
 	"math/big"
-	"path/filepath"
 	"strings"
 
 	"github.com/gotd/td/crypto"
 	"github.com/gotd/td/testutil"
 
+	"verif/harness/c14facts"
 	"verif/harness/hc"
 )
 
 func main() {
-	hc.Main(hc.Spec{Prop: "C14", Facts: facts, Run: run})
-}
-
-func facts(f *hc.Facts) {
-	f.Const("rsaLen", "crypto", "rsaLen")
-	f.Const("rsaWithHashLen", "crypto", "rsaWithHashLen")
-	f.Const("rsaPadDataLimit", "crypto", "rsaPadDataLimit")
-	f.Const("dataWithPaddingLength", "crypto", "dataWithPaddingLength")
-	f.Const("tempKeySize", "crypto", "tempKeySize")
-	f.Nat("sha1Size", 20, "crypto/sha1.Size (standard library)")
-	f.Nat("sha256Size", 32, "crypto/sha256.Size (standard library)")
-	// conditions
-	cond := func(fn string, pick func(*ast.FuncDecl) ast.Node) string {
-		fd := f.FuncDecl("crypto", fn)
-		if fd == nil || fd.Body == nil {
-			return ""
-		}
-		n := pick(fd)
-		if n == nil {
-			return ""
-		}
-		return f.Src(n)
-	}
-	firstIf := func(fd *ast.FuncDecl) ast.Node {
-		for _, s := range fd.Body.List {
-			if is, ok := s.(*ast.IfStmt); ok {
-				return is.Cond
-			}
-		}
-		return nil
-	}
-	f.Str("padLimitCond", cond("RSAPad", firstIf), "first `if` of crypto.RSAPad (rejects)")
-	f.Str("hashedLimitCond", cond("RSAEncryptHashed", firstIf), "first `if` of crypto.RSAEncryptHashed (rejects)")
-	f.Str("padRetryCond", cond("RSAPad", func(fd *ast.FuncDecl) ast.Node {
-		var out ast.Node
-		ast.Inspect(fd.Body, func(n ast.Node) bool {
-			if is, ok := n.(*ast.IfStmt); ok && len(is.Body.List) == 1 {
-				if br, ok := is.Body.List[0].(*ast.BranchStmt); ok && br.Tok.String() == "continue" {
-					out = is.Cond
-				}
-			}
-			return true
-		})
-		return out
-	}), "condition of the `continue` (retry) in crypto.RSAPad")
-	f.Str("guessLoopCond", cond("RSADecryptHashed", func(fd *ast.FuncDecl) ast.Node {
-		var out ast.Node
-		ast.Inspect(fd.Body, func(n ast.Node) bool {
-			if fs, ok := n.(*ast.ForStmt); ok && out == nil {
-				out = fs.Cond
-			}
-			return true
-		})
-		return out
-	}), "loop condition of the guessing loop in crypto.RSADecryptHashed")
-	f.Str("fillBytesCond", cond("FillBytes", firstIf), "first `if` of crypto.FillBytes (rejects)")
-	f.Str("rsaDataLenSrc", constSrc(f, "rsaDataLen"), "crypto.rsaDataLen")
-	f.Str("dataWithHashLengthSrc", constSrc(f, "dataWithHashLength"), "crypto.dataWithHashLength")
-	opsFacts(f)
-}
-
-// constSrc returns the source text of the value of a package-level constant of /repo/crypto.
-func constSrc(f *hc.Facts, name string) string {
-	for _, file := range []string{"rsa.go", "rsa_pad.go"} {
-		fset := token.NewFileSet()
-		af, err := parser.ParseFile(fset, filepath.Join(f.Repo, "crypto", file), nil, 0)
-		if err != nil {
-			continue
-		}
-		for _, d := range af.Decls {
-			gd, ok := d.(*ast.GenDecl)
-			if !ok || gd.Tok != token.CONST {
-				continue
-			}
-			for _, sp := range gd.Specs {
-				vs := sp.(*ast.ValueSpec)
-				for i, id := range vs.Names {
-					if id.Name == name && i < len(vs.Values) {
-						return f.Src(vs.Values[i])
-					}
-				}
-			}
-		}
-	}
-	return ""
+	hc.Main(hc.Spec{Prop: "C14", Facts: c14facts.Facts, Run: run})
 }
 
 // ---------------------------------------------------------------------------------------------
